@@ -255,9 +255,11 @@ struct Runner
     ll ncompute;
     std::vector<Args> argsets;
     Real last_tol;
+    ll last_pair_ops;   // operator applications of the last "init(); compute()" pair (true count)
+    ll ops_at_init;
 
     Runner(const Desc& d_, const Ctx& cx_, OpStats& st_, TraceSink& sink_) :
-        d(d_), cx(cx_), st(st_), sink(sink_), lanczos(false), meas(1), measconv(true), cur_sv(-1), cur_args(-1), ncompute(0), last_tol(0)
+        d(d_), cx(cx_), st(st_), sink(sink_), lanczos(false), meas(1), measconv(true), cur_sv(-1), cur_args(-1), ncompute(0), last_tol(0), last_pair_ops(0), ops_at_init(0)
     {}
 
     const Base& base() const { return static_cast<const Base&>(*eigs); }
@@ -509,10 +511,12 @@ struct Runner
         {
             int svid = tok == "I" ? 0 : (tok == "Z" ? 99 : atoi(tok.c_str() + 1));
             call_line("init", svid, 0);
+            st.in_probe = false;
             try
             {
                 st.count = 0;
                 st.probe = 0;
+                ops_at_init = st.total;
                 if (tok == "I")
                     eigs->init();
                 else
@@ -547,10 +551,12 @@ struct Runner
             }
             bool ok = false;
             ll r = -1;
+            st.in_probe = false;
             try
             {
                 r = (ll) eigs->compute((SortRule) a.sel, (Eigen::Index) a.maxit, last_tol, (SortRule) a.sort);
                 ok = true;
+                last_pair_ops = st.total - ops_at_init;
                 ret_line("compute", r);
             }
             catch (const std::exception& e)
@@ -568,6 +574,7 @@ struct Runner
             ll k = atoll(tok.c_str() + 1);
             st.fault_at = k > 0 ? st.total + k : 0;
             st.fault_tag = k;
+            st.thrown_since_arm = 0;
             Line l("Arm");
             l.i("k", k);
             out().put(l);
@@ -590,6 +597,35 @@ struct Runner
                 Line l("OpProbe");
                 l.i("dg", dgt);
                 out().put(l);
+            }
+            return;
+        }
+        if (tok == "A" || tok == "A2")
+        {
+            // fault sweep: K = applications of the fault-free "init(); compute(args0)" that was just executed;
+            // for every k (stride fstride): arm a fault at the k-th application, run init(); compute() (one of them throws),
+            // then run init(); compute() again without fault: its digest is compared with the baseline by the spec.
+            // A2: a second fault at application k2 of the retry before the clean run.
+            const ll K = last_pair_ops;
+            const ll stride = std::max<ll>(1, d.i("fstride", 1));
+            const ll off = d.i("foff", 0) % stride;
+            for (ll k = 1 + off; k <= K; k += stride)
+            {
+                step("F" + std::to_string(k), sp);
+                step("I", sp);
+                if (eigs && st.thrown_since_arm == 0)
+                    step("C0", sp);
+                if (tok == "A2")
+                {
+                    ll k2 = 1 + (k * 7) % K;
+                    step("F" + std::to_string(k2), sp);
+                    step("I", sp);
+                    if (st.thrown_since_arm == 0)
+                        step("C0", sp);
+                }
+                step("F0", sp);
+                step("I", sp);
+                step("C0", sp);
             }
             return;
         }
